@@ -106,6 +106,9 @@ class Inbound:
         # connectionLost has just been signalled
         assert self._open_subchannels[scid] is sc
         del self._open_subchannels[scid]
+        # a subchannel that is gone can no longer keep the connection
+        # paused (nobody is left to call resumeProducing for it)
+        self.subchannel_stopProducing(sc)
 
     def stop_using_connection(self):
         self._connection = None
